@@ -65,8 +65,11 @@ def _deltas(kind, tier, seed):
     if kind == "SE3":
         out.append([0.3, -0.2, 0.1, 0.3, -0.4, 0.0])  # rotational norm 0.5
         out.append([0.0, 0.0, 0.0, 3e-3, -4e-3, 0.0])  # small-angle regime
+        # rotational part of norm exactly 1 (a half turn) is still inside the documented domain |delta_r| <= 1
+        out.append([0.0, 0.0, 0.0, 1.0, 0.0, 0.0])
+        out.append([0.5, 0.0, -1.0, 0.0, 0.0, -1.0])
+        out.append([0.0, 1.0, -2.0, 0.6, 0.0, 0.8])
         if tier == "thorough":
-            out.append([0.0, 1.0, -2.0, 0.6, 0.0, 0.8])  # rotational norm exactly 1 (180 degrees)
             n = 1 - 1e-12
             out.append([1.0, 0.0, 0.0, 0.0, n, 0.0])
     if kind == "SE2":
@@ -285,6 +288,15 @@ def _eval_inner(case, c):
             c.msgs.append("p += q returned the same object (operand mutated in place)")
         if _stored(pa) != a0 or _stored(pb) != b0:
             c.msgs.append("operator mutated an operand")
+        # history: the left operand is edited IN PLACE (poses are arrays) and used again -- no stale intermediate results
+        np.asarray(pa)[...] = b
+        c.phys("after in-place edit: a (+) b", kind, pa + pb, G.compose(kind, b, b), sc2 * 2)
+        c.phys("after in-place edit: a^-1", kind, pa.inverse, G.inverse(kind, b), sc2 * 2)
+        c.phys("after in-place edit: a (-) b", kind, pa - pb, G.identity(kind), sc2 * 2)
+        if kind in ("SE2", "SE3"):
+            pt = [0.3, -0.7, 1.1][: G.DIM[kind]]
+            c.phys("after in-place edit: a (+) point", I.POINT_OF[kind], pa + np.array(pt), G.act(kind, b, pt), sc2 * 2, want_kind=I.POINT_OF[kind])
+        np.asarray(pa)[...] = a0
         # ndarray operand forms the library documents by dispatch on length
         if kind in ("R2", "R3"):
             c.phys("a (+) ndarray", kind, pa + np.array(b), G.compose(kind, a, b), sc2)
